@@ -25,6 +25,7 @@ mod c16;
 mod c17;
 mod c18;
 mod softmmu;
+mod crash;
 
 use gen::Rng;
 use out::Out;
@@ -99,6 +100,7 @@ fn main() {
                 _ => 31,
             };
             // the corpus (witnesses of past findings, minimised failures) runs first
+            crash::install();
             let corpus = std::env::var("VERIF_CORPUS").unwrap_or_else(|_| "/verif/corpus".to_string());
             mapper::run_corpus_dir(&mut out, &format!("{}/mapper", corpus), mask);
             mapper::run_histories(&mut out, &mut rng, tier, mask)
